@@ -242,6 +242,11 @@ class Sym:
         return out
 
 
+def NEVER(_b: int) -> bool:
+    """stop predicate: run every path to its `return` (the returning block is executed)."""
+    return False
+
+
 def cond_bool(v: ast.expr, key) -> tuple[ast.expr, bool] | None:
     """Interpret a switchInt decision on a boolean value."""
     if isinstance(key, int):
